@@ -1,12 +1,27 @@
 PROPERTY = "C19"
 LEVEL = "proof"
 LEAN_MODULES = ["CifModel.Props.C19"]
-REQUIRED = []
-GEN = []
+REQUIRED = ["CifModel.C19_list_is_sequence", "CifModel.C19_table_is_map", "CifModel.C19_table_invalid_key",
+            "CifModel.C19_table_history", "CifModel.C19_packet_is_map", "CifModel.C19_packet_create", "CifModel.C19_wrong_kind",
+            "CifModel.C19_clone_equal", "CifModel.C19_reinit_releases", "CifModel.C19_cex_packet_create_dup",
+            "CifModel.C19_cex_clone_alias"]
+GEN = ["ErrCodes", "ValueCols"]
 FAMILIES = ["val"]
-TRUSTED_BASE = []
-ASSUMPTIONS = []
+TRUSTED_BASE = [
+    "Lean 4.33.0 kernel; axioms propext, Classical.choice, Quot.sound only (audited per theorem on every run)",
+    "uthash as an insertion-ordered map (HASH_ADD appends to the application order, HASH_FIND finds the entry of a key, "
+    "HASH_DEL removes it) — observed by family val",
+    "key normalisation is a parameter of the model (`norm`); the requests carry the normalised forms, computed by Python's "
+    "unicodedata for a pool of keys on which it agrees with ICU (checked by the run itself: a disagreement shows as a "
+    "different lookup result)",
+    "harness/x_val.c, x_gg.h, cifio.h and tools/gen/{val,ggvals}.py (executor, dumper, generator, reference implementation "
+    "of the documented contracts used as oracle)",
+]
+ASSUMPTIONS = [
+    "memory safety of the C (no out-of-bounds access, no double free) is observed by running family val under ASan/UBSan; "
+    "the heap-level model proves the ownership protocol, not the C code",
+]
 PARTIAL = []
 LEVEL_TEXT = ""
 LEVEL_NOTE = ""
-TECHNIQUE = "Lean 4 proof about an executable model + differential execution"
+TECHNIQUE = "Lean 4 proof (refinement of an association list to an abstract map; induction over operation histories) + differential execution of random operation sequences under ASan"
